@@ -22,6 +22,7 @@ type treeNode struct {
 	Args   []string  `json:"args"`
 	Subs   []int     `json:"subs"`
 	Action bool      `json:"action"`
+	Bare   bool      `json:"bare"` // declares nothing (such a command can be initialised more than once)
 }
 
 type treeCase struct {
@@ -29,6 +30,8 @@ type treeCase struct {
 	Version string     `json:"version"` // e.g. "v version", "" = none
 	Policy  string     `json:"policy"`  // continue | exit | panic
 	Argv    []string   `json:"argv"`
+	// Prerun: argument vectors run first on the SAME application object (outcome ignored); the observed run is the last one
+	Prerun  [][]string `json:"prerun"`
 }
 
 type treeResult struct {
@@ -135,14 +138,20 @@ func runTree(c treeCase) (r treeResult) {
 		cmd.LongDesc = "LONG:" + path
 		logs[path] = map[string]*[]string{}
 		for _, o := range n.Opts {
+			if n.Bare {
+				break
+			}
 			l := new([]string)
 			logs[path]["O:"+optKey(o.Names)] = l
 			cmd.Var(cli.VarOpt{Name: o.Names, Value: &rec{flag: o.Flag, log: l}})
 		}
-		if n.IntOpt != "" {
+		if n.IntOpt != "" && !n.Bare {
 			ints[path] = cmd.Int(cli.IntOpt{Name: n.IntOpt, Value: -1})
 		}
 		for _, a := range n.Args {
+			if n.Bare {
+				break
+			}
 			l := new([]string)
 			logs[path]["A:"+a] = l
 			cmd.Var(cli.VarArg{Name: a, Value: &rec{log: l}})
@@ -158,6 +167,14 @@ func runTree(c treeCase) (r treeResult) {
 		}
 	}
 	build(app.Cmd, 0)
+	for _, pre := range c.Prerun {
+		func() {
+			defer func() { recover() }()
+			app.Run(append([]string{c.Nodes[0].Names[0]}, pre...))
+		}()
+		r.Log, r.Exits = []string{}, []int{}
+		errBuf.Reset()
+	}
 	err := app.Run(append([]string{c.Nodes[0].Names[0]}, c.Argv...))
 	if err != nil {
 		r.Err = err.Error()
